@@ -8,9 +8,9 @@ from vlib import NoVerdict, log
 HARNESS = {"csr/zz_verif_reqparam_test.go": os.path.join(vlib.HARNESS, "reqparam", "zz_verif_reqparam_test.go")}
 CFG = {
     "C14": dict(quick=["MCReqParam_c14"], thorough=["MCReqParam_c14"], spec="Spec14", strict="Strict14",
-                random=dict(quick=4000, thorough=120000), conc=dict(quick=(6, 500), thorough=(8, 5000)), hist=dict(quick=0, thorough=0)),
+                random=dict(quick=4000, thorough=120000), conc=dict(quick=(6, 500), thorough=(8, 5000)), hist=dict(quick=0, thorough=0), long=dict(quick=50000, thorough=1000000)),
     "C15": dict(quick=["MCReqParam_c15q"], thorough=["MCReqParam_c15t", "MCReqParam_c15t4"], spec="Spec15", strict="Strict15",
-                random=dict(quick=6000, thorough=120000), conc=dict(quick=(6, 1500), thorough=(8, 10000)), hist=dict(quick=1500, thorough=20000)),
+                random=dict(quick=6000, thorough=120000), conc=dict(quick=(6, 1500), thorough=(8, 10000)), hist=dict(quick=1500, thorough=20000), long=dict(quick=50000, thorough=500000)),
 }
 TRACE_CONSTANTS = 'CONSTANTS\n  LKeys = {"req"}\n  MaxFields = 0\n  IfVers = {7}\n'
 CHUNK = 9000
@@ -59,6 +59,9 @@ def describe_obj(rec):
                  tid="".join(chr(c) for c in e["res"]["tidc"]))
         for k in ("logname", "ip", "pol", "handler", "requser", "reqhost"):
             d["res"][k] = un(d["res"][k])[:60]
+    elif e.get("op") == "tidlong":
+        d.update({k: v for k, v in e.items() if k != "op"})
+        d.update(info)
     elif e.get("op") == "tidbatch":
         d.update(n=e["n"], distinct=len(set(e["sorted"])), cols=[len(c) for c in e["cols"]])
     elif e.get("op") == "rt":
@@ -128,7 +131,8 @@ def replay(prop, path):
     binp = build(prop)
     wd = vlib.workdir(prop, "replay_run")
     g, rounds = CFG[prop]["conc"]["quick"]
-    plan = {"prop": prop, "cases": [], "random": 0, "hist": 0, "conc": {"g": g, "rounds": rounds},
+    longn = max([(r.get("info") or {}).get("n", 0) for r in old if r.get("ev") == "step" and r["e"].get("op") == "tidlong"] + [0])
+    plan = {"prop": prop, "cases": [], "random": 0, "hist": 0, "conc": {"g": g, "rounds": rounds}, "long": longn,
             "replays": [{"e": {"op": r["e"]["op"]}, "info": r.get("info")} for r in old if r.get("ev") == "step"]}
     recs, summ = execute(prop, binp, wd, plan, "quick")
     verdict, drift = vlib.Verdict(prop), []
@@ -171,7 +175,8 @@ def run(prop, tier):
     if zero:
         raise NoVerdict("vacuous: actions %s walked no case" % zero)
     g, rounds = conf["conc"][tier]
-    plan = {"prop": prop, "cases": cases, "random": conf["random"][tier], "replays": [], "hist": conf["hist"][tier], "conc": {"g": g, "rounds": rounds}}
+    plan = {"prop": prop, "cases": cases, "random": conf["random"][tier], "replays": [], "hist": conf["hist"][tier], "conc": {"g": g, "rounds": rounds},
+            "long": conf["long"][tier]}
     recs, summ = execute(prop, binp, wd, plan, tier)
     steps = [x for x in recs if x.get("ev") == "step"]
     ncase = sum(1 for x in steps if (x.get("info") or {}).get("xok", "na") != "na")
@@ -199,6 +204,7 @@ def run(prop, tier):
                    "distinct_nontrivial = distinct (input class, JSON reading, outcome) combinations observed; every recorded call (table cases and seeded free inputs) is judged by TLC with %s_Step" % prop,
            "table_cases_replayed": len(cases), "table_case_events": ncase, "free_input_events": nval - ncase,
            "concurrent_events": sum(n for k, n in summ["classes"].items() if "conc" in k), "concurrent_goroutines": g,
+           "long_history_calls": conf["long"][tier],
            "history_events": sum(n for k, n in summ["classes"].items() if "/hist/" in k),
            "successful_calls": summ.get("ok14"), "panics_observed": summ["pan"], "spec_drift": len(drift),
            "classes_observed": summ["classes"], "zero_coverage_actions": zero, "model_cfgs": conf[tier]}
